@@ -246,7 +246,7 @@ Stmts(p, H, ZS) ==
     [] p = "PL1"  -> <<ForR(<<"i", "v">>, ":=", H, <<Out(<<ii, vv>>)>>)>>
     [] p = "PL2"  -> <<ForR(<<"_", "v">>, ":=", H, <<O1(vv)>>), OS("end")>>
     [] p = "PL3"  -> <<Def("n", Num(0)), ForR(<<"i">>, ":=", H, <<Asg("+=", nn, Bin("+", ii, Num(1)))>>), O1(nn)>>
-    [] p = "PL4"  -> <<Var(<<"i", "v">>, "int", E0), ForR(<<"i", "v">>, "=", H, <<Out(<<ii, vv>>)>>), Out(<<ii, vv>>)>>
+    [] p = "PL4"  -> <<Var(<<"i", "v">>, "int", E0), ForR(<<"i", "v">>, "=", H, <<Out(<<ii, vv>>)>>), OS("end")>>  \* (what i, v hold afterwards differs between Ego and Go: not printed)
     [] p = "PL5"  -> <<Def("x", H), Out(<<Len1(vX), Sum1(vX)>>)>>
     [] p = "PL6"  -> <<Out(<<Sum1(H), Len1(H)>>)>>
     [] p = "PL7"  -> <<If(E0, Bin("==", Len1(H), Num(2)), <<OS("two")>>, <<OS("not2")>>)>>
@@ -328,7 +328,7 @@ NLLegal(t) == t.b \in {"S", "O", "L", "K", "T"}
 Idx(toks, P(_)) == SelectSeq([i \in DOMAIN toks |-> i], LAMBDA i : P(i))
 Every(s, k, r) == SelectSeq(s, LAMBDA i : i % k = r)
 NLIdx(toks) == Idx(toks, LAMBDA i : NLLegal(toks[i]))
-AnyIdx(toks) == Idx(toks, LAMBDA i : toks[i].b \notin {"T", "W", "A"})     \* (where a layout ends the line, the comment ends it)
+AnyIdx(toks) == Idx(toks, LAMBDA i : toks[i].b \notin {"T", "W", "A", "F"})     \* (where a layout ends the line, the comment ends it)
 CM(k, at) == [k |-> k, at |-> at]
 PickOf(s, salt) == IF s = <<>> THEN <<>> ELSE <<s[((Seed * 17 + salt) % Len(s)) + 1]>>
 \* lc: line comment ending the line after the token (a break is taken there); bc: /* */ on the same line after the token;
